@@ -1077,10 +1077,42 @@ def type_of(v):
 def class_attr(it, selfv, pycls, name, node=None):
     found = it.class_lookup(pycls, name)
     if found is None:
-        # __getattr__?
+        if isinstance(selfv, Obj) and it.stack and _assigned_on_self(it, pycls, name):
+            # the class keeps instance state under this name, but the contract's pre-state does not describe it:
+            # state outside the contract (like module-level state) - a failed frame obligation, not an AttributeError
+            it.hidden_state(f"{pycls.__module__}:{pycls.__name__}.{name}", node)
         it.raise_(AttributeError, f"'{pycls.__name__}' object has no attribute '{name}'", node=node)
     klass, raw = found
     return bind_class_attr(it, selfv, klass, raw, name, node)
+
+
+_SELF_ATTRS = {}
+
+
+def _assigned_on_self(it, pycls, name):
+    """does any method of the class (or of its interpreted bases) assign self.<name>?"""
+    import ast
+    import inspect
+    import textwrap
+
+    for klass in getattr(pycls, "__mro__", ()):
+        if not it.is_interpreted_class(klass):
+            continue
+        names = _SELF_ATTRS.get(klass)
+        if names is None:
+            names = set()
+            try:
+                tree = ast.parse(textwrap.dedent(inspect.getsource(klass)))
+            except (OSError, TypeError, SyntaxError):
+                tree = None
+            if tree is not None:
+                for n in ast.walk(tree):
+                    if isinstance(n, ast.Attribute) and isinstance(n.ctx, ast.Store) and isinstance(n.value, ast.Name) and n.value.id == "self":
+                        names.add(n.attr)
+            _SELF_ATTRS[klass] = names
+        if name in names:
+            return True
+    return False
 
 
 def bind_class_attr(it, selfv, klass, raw, name, node=None):
